@@ -58,6 +58,13 @@ def mutate_line(kind, line, req_name):
         return req_name + ",1 Err: parameter outside limit"
     if kind == "wrong":                 # a well-formed reply to some other request
         return "ZZ,0" if not line.startswith("ZZ") else "YY,0"
+    if kind == "sibling":               # the reply of a request whose name differs in the last
+        #                                     letter only (a stale SP answering S2, QX for QG)
+        if len(req_name) < 2:
+            return chr(ord(req_name[0]) + 1 if req_name[:1] not in ("Z", "z") else 65) + ",0"
+        return req_name[0] + ("X" if req_name[1] not in ("X", "x") else "Y") + ",0"
+    if kind == "cut":                   # a reply cut short after its first character
+        return req_name[0] if len(req_name) > 1 else "ZZ,0"
     if kind == "garbage":
         return "\x7f??"
     if kind == "bare":                  # conforming: name only, no payload
